@@ -6,11 +6,24 @@ V = Path(__file__).resolve().parent.parent
 props = [json.loads(l) for l in (V / "properties.jsonl").read_text().splitlines() if l.strip()]
 
 # pid -> (technique, level text, level note, design ref)
+TB = "Trusted: Coq 8.16.1 kernel + vm_compute (no native_compute); translators (harness/t*.py, fail-closed) and the correspondence harness (generators, canonicaliser, differ-in-Coq driver); CPython/NumPy semantics are not modelled. Axioms per theorem are listed in the evidence (Print Assumptions)."
 CLAIMED = {
+    "C01": ("Coq proof (dimensionality homomorphism by linearity of the accumulate-as-you-recurse expansion, for every registry) + T1-regenerated registry + differential correspondence + implementation-side oracles",
+            "dim_of is proved a homomorphism (mul/div/pow) into canonical dimension containers for EVERY registry and container; conversion yields DimensionalityError iff dimensionalities differ and a number only if equal; compatibility is an equivalence and a congruence. The model registry is regenerated from /repo's definition files on every run (T1) and compared with pint on every spelling, sampled prefixed strings, unit pairs and random compound units; the biconditional, the four predicate APIs, symmetry/transitivity/congruence and configuration independence are checked on the real registry.",
+            TB + " Non-multiplicative units are C06's. The success direction of conversion (same dimension => a number) relies on the expansion not erroring, which is checked by correspondence, not proved, for arbitrary registries.",
+            "DESIGN.md §4 C01"),
     "C04": ("Coq proof over gmap-string-Qc container model + differential correspondence (differ inside Coq via vm_compute) + implementation-side law oracles",
             "Group laws, canonical form, ==/hash agreement and hash-cache invariant are Coq theorems over the executable model Model/UC.v for all containers (no size bound); the model is tied to pint by running every container operation of UnitsContainer/ParserHelper/Unit/Quantity on the real classes (exhaustive over 125 small containers x pairs, random beyond) and checking inside Coq that the model returns the same container, and by stateful op sequences with interleaved hash() calls.",
-            "Trusted: Coq kernel + vm_compute; harness generators/canonicaliser; ideal (injective) hash abstraction; float exponents only on the dyadic grid. Buckingham-pi basis clause not yet modelled (partial).",
+            TB + " Ideal (injective) hash abstraction; float exponents only on the dyadic grid. Buckingham-pi basis clause not yet modelled (partial).",
             "DESIGN.md §4 C04"),
+    "C16": ("Coq proof over the NumPy unit-bookkeeping tables regenerated from numpy_func.py (T3) + per-class covariance lemmas under explicit homogeneity hypotheses + differential correspondence for every handled ufunc/function/method + covariance oracles",
+            "The behaviour tables are regenerated from the source on every run and checked in Coq (finite vm_compute theorem, bounds in the statement) against a hand-written table of dimensional signature classes; per-class covariance is proved for an abstract kernel satisfying the class's homogeneity law; get_op_output_unit and the bare-number rule are proved correct. Every handled name is exercised on the real NumPy/pint with compatible, incompatible and offset units; result units/error classes are compared with the model inside Coq and covariance, DimensionalityError, offset refusal and input immutability are checked on the implementation.",
+            TB + " NumPy kernels are trusted; their homogeneity laws are hypotheses of the class lemmas (not axioms). Known findings F13, F30-F35 are listed in known_findings/C16.json.",
+            "DESIGN.md §4 C16"),
+    "C17": ("Coq proof over an executable model of wraps/check argument bookkeeping (all signatures, spec lists, bindings) + differential correspondence on random signatures/specs/calls in the Fraction registry + independent per-parameter oracles",
+            "For every signature, spec list and valid binding the wrapped function observes exactly the per-parameter specification (declared-unit magnitudes, '=A' references, defaults, keywords), independent of delivery mode; error classes, return re-wrapping, decoration-time arity check and check_iff are theorems. The model is compared with pint on thousands of generated plans (incl. malformed) and pint alone is checked against q.to(unit).magnitude computed in a pristine registry.",
+            TB + " Conversion is a record field of the model (unit system), instantiated by a 45-name table; keyword-only/*args parameters, arrays and the with_context decorator are not covered. F23/F24 were repaired by fix: commits.",
+            "DESIGN.md §4 C17"),
 }
 PENDING = "check not built yet in this round (planned, see DESIGN.md §4); not claimed until its model, theorems and correspondence exist"
 
